@@ -2,7 +2,7 @@ HARNESSES = {}
 for _g in range(1, 7):
     HARNESSES["c15_g%d" % _g] = {"src": ["harness/c15.cc"], "variant": "prod", "flags": ["-DVF_GROUP=%d" % _g], "opt": ["-O1", "-DNDEBUG=1"]}
 # groups 7.. : adapters of engine/classes_c15x.hh (rows, matrices, intervals, further shapes / powersets / products, solver trees)
-_XGROUPS = [7, 8, 9, 10, 11, 12, 13, 14, 15, 16, 17]
+_XGROUPS = [7, 8, 9, 10, 11, 12]
 for _g in _XGROUPS:
     HARNESSES["c15_g%d" % _g] = {"src": ["harness/c15.cc"], "variant": "prod", "flags": ["-DVF_GROUP=%d" % _g] + NOAC, "opt": ["-O1", "-DNDEBUG=1"]}
 
